@@ -264,7 +264,7 @@ VALUE_MUTANTS = [
          edits=[(BASE, "        return self._value in self._valid_values\n", "        return self._value in self._valid_values or self._value == 0\n")]),
     dict(id="c04-contains-inverted", props=["C04"], rule="V4", names="__contains__",
          edits=[(VALUES, "        return self.get(value) is not None\n", "        return self.get(value) is None\n")]),
-    dict(id="c04-get-identity", props=["C04"], rule="V4", names="equality",
+    dict(id="c04-get-identity", props=["C04"], rule="V4", names="item decision",
          edits=[(VALUES, "            if value == v:\n                return v\n", "            if value is v:\n                return v\n")]),
     dict(id="c04-namedrange-closed", props=["C04", "C16"], rule={"C04": "V4", "C16": "O4"}, names="NamedRange.__contains__",
          edits=[(VALUES, "        return self._start <= item < self._end\n", "        return self._start <= item <= self._end\n")]),
